@@ -37,7 +37,7 @@ const regexRule = "for each pattern of processors/sshd/openssh_regex.go (the pac
 // the pattern table: compiled values from the package under test, structure from regexp/syntax
 
 type fitem struct {
-	kind string // lit | one | star | open | close | bol | eol
+	kind string // lit | one | rune | star | open | close | bol | eol
 	lit  byte
 	cls  *[256]bool
 	g    int
@@ -172,6 +172,18 @@ func flatten(re *syntax.Regexp, out *[]fitem) error {
 // generated pattern and requires the two to agree)
 func high(c *[256]bool) bool { return c[128] }
 
+// as tools/go2v does: a single-character item over a class with the non-ASCII runes that is not the head of x+ is
+// ONE RUNE (IRune), not one byte
+func runeItems(items []fitem) []fitem {
+	out := append([]fitem{}, items...)
+	for i := range out {
+		if out[i].kind == "one" && high(out[i].cls) && !(i+1 < len(out) && out[i+1].kind == "star" && high(out[i+1].cls)) {
+			out[i].kind = "rune"
+		}
+	}
+	return out
+}
+
 func followOK(r []fitem) bool {
 	for _, it := range r {
 		switch it.kind {
@@ -298,6 +310,8 @@ func loadPatterns() ([]*pat, []string) {
 			p.bad = err.Error()
 		} else if err := flatten(tree.Simplify(), &p.items); err != nil {
 			p.bad = err.Error()
+		} else {
+			p.items = runeItems(p.items)
 		}
 		if p.bad != "" {
 			problems = append(problems, "pattern "+n+" is outside the flat subset: "+p.bad)
@@ -445,6 +459,14 @@ func (p *pat) pieces(r *hutil.Rand, style string) [][]byte {
 				b = b[:w]
 			}
 			ps[i] = b
+		case "rune":
+			// one decoding step: an in-class ASCII byte, a multi-byte rune, or one invalid byte
+			b := fieldBytes(r, it.cls, 1, style)
+			if len(b) > 0 {
+				_, w := utf8.DecodeRune(b)
+				b = b[:w]
+			}
+			ps[i] = b
 		case "star":
 			ps[i] = fieldBytes(r, it.cls, fieldLen(r, i == longAt), style)
 		}
@@ -516,8 +538,7 @@ func (p *pat) gen(r *hutil.Rand, i int) genText {
 	case "base", "utf8", "invalid", "nul", "long", "anybyte":
 		style := kind
 		ps := p.pieces(r, style)
-		// (a lonely high-class byte item handed an invalid multi-byte piece is several runes for Go)
-		return genText{kind: kind, text: cat(ps), parse: kind != "invalid" || p.runeSafe}
+		return genText{kind: kind, text: cat(ps), parse: true}
 	case "follow1", "followN":
 		ps := p.pieces(r, "base")
 		stars := p.starIdx()
@@ -583,7 +604,7 @@ func (p *pat) gen(r *hutil.Rand, i int) genText {
 		ps := p.pieces(r, "base")
 		var cand []int
 		for j, it := range p.items {
-			if (it.kind == "star" || it.kind == "one") && len(ps[j]) > 0 && len(outClassBytes(it.cls)) > 0 {
+			if (it.kind == "star" || it.kind == "one" || it.kind == "rune") && len(ps[j]) > 0 && len(outClassBytes(it.cls)) > 0 {
 				cand = append(cand, j)
 			}
 		}
